@@ -40,5 +40,5 @@ func (f *pullStreamFactory) Create(localPath, remoteURL string) (*media.Stream, 
 		return nil, err
 	}
 
-	return client.stream, nil
+	return client.opened, nil
 }
